@@ -304,7 +304,11 @@ impl LruManager {
 
         for entry in read_dir.flatten() {
             let name = entry.file_name();
-            let name_str = name.to_str()?;
+            // A name that is not UTF-8 cannot be a checkpoint: skip it like any other
+            // foreign file instead of abandoning the search
+            let Some(name_str) = name.to_str() else {
+                continue;
+            };
             if let Some(file_gen) = lru_file::filename_to_generation(name_str)
                 && best
                     .as_ref()
